@@ -92,6 +92,12 @@ EndIdx(p) ==
 Context(j) == {p \in 1..Len(procs) : procs[p].start < j /\ j < EndIdx(p)}
 Started(j) == {p \in 1..Len(procs) : procs[p].start = j}
 
+\* Downstream reading (hed_type.py, hed_type_factors.py, HedTypeManager): a type variable (Condition-variable/X) carried by the
+\* content of a process - or by the definition its Def names - is "on" at a time point exactly when the process starts
+\* there or is context there; its factor vector over the time points is therefore one unbroken run
+Active(j) == Started(j) \cup Context(j)
+ActiveIsRun == \A p \in 1..Len(procs) :
+      {j \in 1..NT : p \in Active(j)} = {j \in 1..NT : procs[p].start <= j /\ (j < EndIdx(p) \/ j = procs[p].start)}
 ContextExact == \A j \in 1..NT : ctxs[j] = Context(j)
 \* a restarted process closes the previous one of that name at that very time point
 RestartClosesPrevious == \A p, q \in 1..Len(procs) :
